@@ -1,11 +1,15 @@
 import MpdProofs.C03
+import MpdProofs.Lemmas.Sticky
 /-!
 # C10 — end of stream is clean only on a response boundary
 
 For well-formed server output: EOF after complete responses is a clean close; EOF after any
 non-empty proper prefix of a further response (cut inside a key, a value, a binary header, a
 payload, between the frames of a list …) is an unexpected-EOF error, and the complete responses
-before it are still delivered. Both flavours, every segmentation (via C02).
+before it are still delivered. Both flavours, every segmentation (via C02). The end is sticky
+(`C10_end_is_sticky`): once a call reported the end (clean, unexpected EOF, I/O error, invalid message)
+and the transport has nothing more, every further call reports the same — an unclean end never turns
+into a clean one (async connection, any builder state carried over from earlier calls).
 -/
 namespace Mpd.C10
 open Mpd Mpd.Parser Mpd.Builder Mpd.Conn Mpd.C03
@@ -124,6 +128,16 @@ theorem C10_clean_sync (fuel : Nat) (rs : List Spec.AbsResp) (chunks : List Byte
     sessionS (fuel + 1 + rs.length) 0 .initial { cap := DEFAULT_CAP, data := [] } chunks .eof = rs.map viewItem ++ [.clean] := by
   rw [C02.C02_sync _ _ chunks .eof hne C02.fresh_inv, List.nil_append, hflat]
   exact C10_clean fuel rs hwf
+
+/-- **the end is sticky** (async): `extra` further calls after the end repeat it -/
+theorem C10_end_is_sticky (extra : Nat) (σ : BState) (buf : Bytes) (term : Term)
+    (h : ∀ r, (recvLoopA σ buf [] term).1 ≠ .resp r) :
+    sessionA (extra + 1) extra σ buf [] term = List.replicate (extra + 1) (recvLoopA σ buf [] term).1 :=
+  sessionA_sticky extra σ buf term h
+
+/-- e.g. a stream that ended after a complete field line: unexpected EOF, three times in a row -/
+example : sessionA 3 2 .initial (str "foo: bar\n") [] .eof = [.unexpectedEof, .unexpectedEof, .unexpectedEof] := by
+  decide +kernel
 
 /-! ## non-vacuity: the case the suite misses — a partial line and nothing else -/
 example : decodeAll 4 (str "OK") .eof = [.unexpectedEof] := by
